@@ -1,0 +1,20 @@
+//go:build verif
+
+package domainscrawl
+
+// Contracts for govc. Comment-only file: it adds no code.
+// The pattern matcher itself is abstract here: what matters to the callers (C06) is that
+// Enabled/Match are functions of the configuration and the URL text.
+
+//@ pure dcOn() bool
+//@ pure dcMatch(rawURL string) bool
+
+//@ func Enabled
+//@   opaque
+//@   modifies nothing
+//@   ensures result == dcOn()
+
+//@ func Match
+//@   opaque
+//@   modifies nothing
+//@   ensures result == dcMatch(rawURL)
